@@ -395,7 +395,7 @@ MergedScopes(f, kids) ==          \* union of the children's scope lists, first 
 Slide(S, k, hid, fuel) ==
   LET f == Fl(S, k)
       h == Hd(S, k, hid)
-  IN IF fuel = 0 THEN [S |-> S, new |-> <<>>, err |-> TRUE]
+  IN IF fuel = 0 THEN [S |-> [S EXCEPT !.fuelout = TRUE], new |-> <<>>, err |-> TRUE]      \* the code has no budget: it would not return
      ELSE IF h.pos >= NEl(f.fid) \/ h.status = "INACTIVE" THEN [S |-> S, new |-> <<>>, err |-> FALSE]
      ELSE LET e == El(f.fid, h.pos) IN
        CASE e.k = "send" ->
@@ -699,29 +699,35 @@ Resolve(S, heads) ==
 (* ------------------------------------------------------------------ run_to_completion *)
 RECURSIVE Drain(_, _, _), Inner(_, _, _), Outer(_, _, _)
 Drain(S, act, fuel) ==
-  IF S.queue = <<>> \/ fuel = 0 THEN [S |-> S, act |-> act]
-  ELSE LET r == ProcessEvent([S EXCEPT !.queue = Tail(@)], Head(S.queue), act) IN Drain(r.S, r.act, fuel - 1)
+  IF S.queue = <<>> THEN [S |-> S, act |-> act]
+  ELSE IF fuel = 0 THEN [S |-> [S EXCEPT !.fuelout = TRUE], act |-> act]
+  ELSE LET r == ProcessEvent([S EXCEPT !.queue = Tail(@), !.nev = @ + 1], Head(S.queue), act) IN Drain(r.S, r.act, fuel - 1)
 HStatus(S, kh) == IF HasH(S, kh[1], kh[2]) THEN Hd(S, kh[1], kh[2]).status ELSE "GONE"
 Inner(S, act, fuel) ==
   LET d  == Drain(S, act, 300)
       mh == SelectSeq(d.act, LAMBDA kh : HStatus(d.S, kh) = "MERGING")
       ah == SelectSeq(d.act, LAMBDA kh : HStatus(d.S, kh) = "ACTIVE")
       r  == AdvanceFront(d.S, mh)
-  IN IF mh = <<>> \/ fuel = 0 THEN [S |-> r.S, act |-> ah \o r.act] ELSE Inner(r.S, ah \o r.act, fuel - 1)
+  IN IF mh = <<>> THEN [S |-> r.S, act |-> ah \o r.act]
+     ELSE IF fuel = 0 THEN [S |-> [r.S EXCEPT !.fuelout = TRUE], act |-> ah \o r.act]
+     ELSE Inner(r.S, ah \o r.act, fuel - 1)
 Outer(S, act, fuel) ==
   LET i  == Inner(S, act, 50)
       a1 == SelectSeq(i.act, LAMBDA kh : HasH(i.S, kh[1], kh[2]) /\ ActiveFlow(Fl(i.S, kh[1])) /\ HStatus(i.S, kh) = "ACTIVE")
       r  == Resolve(i.S, a1)
-  IN IF r.adv = <<>> \/ fuel = 0 THEN r.S
+  IN IF r.adv = <<>> THEN r.S
+     ELSE IF fuel = 0 THEN [r.S EXCEPT !.fuelout = TRUE]
      ELSE LET ad == AdvanceFront(r.S, r.adv) IN Outer(ad.S, ad.act, fuel - 1)
 ClearScores(S) == [S EXCEPT !.flows = [k \in 1..Len(@) |-> [@[k] EXCEPT !.heads = [q \in 1..Len(@) |-> [@[q] EXCEPT !.scores = <<>>]]]]]
 DropUnreferencedActions(S) ==
   [S EXCEPT !.actions = [a \in 1..Len(@) |-> IF \E k \in 1..Len(S.flows) : a \in Range(S.flows[k].actions) THEN @[a] ELSE [@[a] EXCEPT !.status = "DELETED"]]]
-Run(S, ev, pick) == Outer(DropUnreferencedActions(ClearScores([S EXCEPT !.queue = <<ev>>, !.out = <<>>, !.pick = pick])), <<>>, 50)
+(* nev counts the internal events processed by this call; fuelout is set where a recursion budget of the
+   specification ran out, i.e. where the code (which has no budget) would not have returned *)
+Run(S, ev, pick) == Outer(DropUnreferencedActions(ClearScores([S EXCEPT !.queue = <<ev>>, !.out = <<>>, !.pick = pick, !.nev = 0])), <<>>, 50)
 
 (* initialize_state: the main instance, waiting at position 0 *)
 Init0 ==
-  LET S0 == [flows |-> <<>>, actions |-> <<>>, queue |-> <<>>, out |-> <<>>, index |-> <<>>, nuid |-> 100, pick |-> 0]
+  LET S0 == [flows |-> <<>>, actions |-> <<>>, queue |-> <<>>, out |-> <<>>, index |-> <<>>, nuid |-> 100, pick |-> 0, nev |-> 0, fuelout |-> FALSE]
       S1 == AddInstance(S0, "main", <<0>>, 1)
   IN [S1 EXCEPT !.flows[1].activated = 1, !.flows[1].loop = <<"main", 0>>]
 ExtEvent(name, args) == Ev(name, args, <<>>, "E", 0)
